@@ -156,6 +156,7 @@ func runC15(c *Ctx) {
 		if err != nil {
 			continue
 		}
+		corrNorm(c, kind, doc) // the JSON form the pointers are evaluated on is the codec model's output
 		var addrs []addr
 		addressable(v, kind, ev, nil, &addrs)
 		for _, a := range addrs {
